@@ -33,7 +33,7 @@ def specs_for(chk, n, profile):
         if profile.get('reuse') and i % 4 == 1:
             opts['reuse'] = 'pool' if (i // 4) % 2 == 0 else True     # 'pool': the two call sites at two resolutions
         if profile.get('unsupported') and i % profile.get('unsupported_every', 6) == 0 and not opts.get('fixed_cat'):
-            opts['unsupported'] = 'add_cat' if (i // 6) % 2 == 0 else 'dw_cat'
+            opts['unsupported'] = ['add_cat', 'dw_cat', 'reuse_cat'][(i // profile.get('unsupported_every', 6)) % 3]
         excl = None
         if profile.get('excl') and (rng.random() < profile.get('p_excl', .35) or opts.get('cat_tail')):
             excl = rng.choice(['names', 'names', 'types', 'both']) if not opts.get('cat_tail') else rng.choice(['types', 'lastlin'])
@@ -128,11 +128,14 @@ def unsupported_key(head, r=None):
         return None
     if not why and r is not None and head.get('sup') is None:
         # no model answer for this net (a feature outside the model): the generator knows which family it drew
-        return {'add_cat': 'add-with-concat-operand', 'dw_cat': 'depthwise-fed-by-concat'}.get(r['spec']['opts'].get('unsupported'))
+        return {'add_cat': 'add-with-concat-operand', 'dw_cat': 'depthwise-fed-by-concat',
+                'reuse_cat': 'layer-twice-fed-by-concat'}.get(r['spec']['opts'].get('unsupported'))
     if 'add' in why or 'tcat' in why:
         return 'add-with-concat-operand'
     if 'dw' in why:
         return 'depthwise-fed-by-concat'
+    if 'reuse' in why:
+        return 'layer-twice-fed-by-concat'
     return None
 
 
